@@ -480,6 +480,30 @@ func main() {
 	var nondet []string
 	files, _ := filepath.Glob(filepath.Join(repo, "compiler/*.go"))
 	sort.Strings(files)
+	// names of struct fields and variables of the package that are declared with a map type
+	mapNames := map[string]bool{}
+	for _, f := range files {
+		if strings.HasSuffix(f, "_test.go") || strings.Contains(f, "verif_hooks") {
+			continue
+		}
+		ast.Inspect(parse(f), func(n ast.Node) bool {
+			switch x := n.(type) {
+			case *ast.Field:
+				if _, ok := x.Type.(*ast.MapType); ok {
+					for _, nm := range x.Names {
+						mapNames[nm.Name] = true
+					}
+				}
+			case *ast.ValueSpec:
+				if _, ok := x.Type.(*ast.MapType); ok {
+					for _, nm := range x.Names {
+						mapNames[nm.Name] = true
+					}
+				}
+			}
+			return true
+		})
+	}
 	for _, f := range files {
 		if strings.HasSuffix(f, "_test.go") || strings.Contains(f, "verif_hooks") {
 			continue
@@ -498,7 +522,11 @@ func main() {
 			case *ast.RangeStmt:
 				// ranging over something whose expression mentions a map-typed field we know of
 				s := src(x.X)
-				if strings.Contains(s, ".values") || strings.Contains(s, "SourceLinesToTarget") || strings.Contains(s, "TargetLinesToSource") {
+				last := s
+				if i := strings.LastIndex(last, "."); i >= 0 {
+					last = last[i+1:]
+				}
+				if strings.Contains(s, ".values") || strings.Contains(s, "SourceLinesToTarget") || strings.Contains(s, "TargetLinesToSource") || mapNames[last] {
 					nondet = append(nondet, fmt.Sprintf("%s:%d: range over map %s", filepath.Base(f), fset.Position(x.Pos()).Line, s))
 				}
 			case *ast.CallExpr:
